@@ -91,6 +91,15 @@ BODIES = [
     ('if', O('TRUE') + isa.IF(O('TRUE')), True),
     ('ifret', O('TRUE') + O('TRUE') + isa.IF(O('RETURN')) + O('FALSE'), True),
     ('empty', b'', False),
+    # an evaluated script that RETURNs ends only itself: the block
+    # instruction after it and what follows still run (at every depth the
+    # leaf is reached at)
+    ('evalret-if', isa.push(O('TRUE') + O('RETURN') + O('FALSE')) + O('EVAL')
+     + isa.IF(O('TRUE') + O('POP0')) + O('TRUE'), True),
+    ('evalret-try', isa.push(O('RETURN')) + O('EVAL')
+     + isa.TRY(O('TRUE') + O('POP0'), b'') + O('TRUE'), True),
+    ('evalret-if-fail', isa.push(O('TRUE') + O('RETURN')) + O('EVAL')
+     + O('TRUE') + isa.IF(O('TRUE') + O('POP0')) + O('NOT'), False),
     ('eq', isa.push(b'ab') + O('DUP') + O('EQUAL'), True),
     # leaves whose verdict depends on what the verifier configured for the
     # run (slack thresholds, a register flag): judged under CONFIG below
